@@ -982,7 +982,17 @@ def rule_serializer_twins(out, tier):
             continue
         ws, rs = by[name], by[rname]
         if len(ws) != len(rs):
-            out.bad(rid, key + "/overloads", "%s:%d" % (rel, ws[0].get("_line", 0)), "%d overloads of %s but %d of %s" % (len(ws), name, len(rs), rname))
+            # one side merged its overloads into one template with `if constexpr` branches: the sets of operation sequences over all
+            # overloads must agree
+            tw = {}
+            for hn, hl in by.items():
+                other = ("Read" + hn[5:]) if hn.startswith("Write") else ("Write" + hn[4:]) if hn.startswith("Read") else None
+                if len(hl) == 1 and (other is None or other not in by) and hn not in ("WriteHeader", "ReadHeader"):
+                    tw[hn] = hl[0]
+            a = frozenset(t for w in ws for t in op_traces(w, expand=tw))
+            b = frozenset(t for r_ in rs for t in op_traces(r_, expand=tw))
+            out.check(a == b, rid, key + "/overloads", "%s:%d" % (rel, ws[0].get("_line", 0)), "%d overloads of %s and %d of %s perform the same set of operation sequences: %s" % (len(ws), name, len(rs), rname, fmt_traces(a)),
+                      "%d overloads of %s but %d of %s, and their operation sequences differ: write = [%s], read = [%s]" % (len(ws), name, len(rs), rname, fmt_traces(a), fmt_traces(b)))
             continue
         # helpers that are not themselves one half of a Write/Read pair are expanded where they are called
         twinless = {}
@@ -1513,6 +1523,12 @@ def rule_blocks(out, tier):
     for x in walk(body_of(wb)):
         if x.get("kind") == "CallExpr" and callee_name(x).endswith("WriteInteger"):
             first = txt((x.get("inner") or [])[2]) if len(x.get("inner") or []) > 2 else None
+            # a named constant (`constexpr unsigned elements_in_block = 1U;`): its initialiser
+            for v in walk(body_of(wb)):
+                if v.get("kind") == "VarDecl" and v.get("name") == first and "const" in ((v.get("type") or {}).get("qualType", "") + (" constexpr" if v.get("constexpr") else "")):
+                    init = [c for c in (v.get("inner") or []) if isinstance(c, dict)]
+                    if init:
+                        first = txt(init[-1])
             break
     out.check(traces == frozenset({(("Integer",), ("Element",))}) and first in ("1", "1U"), rid, "WriteBlock/count then element", "%s:%d" % (rel, wb.get("_line", 0)),
               "writes the block count 1, then the element", "WriteBlock does not write `1` followed by the element: ops=%s count=%s" % (fmt_traces(traces), first))
